@@ -359,7 +359,9 @@ RecGeoms == {g \in GeomRefShapes({PPath, POther}) : Len(g.paths) <= 2}
                                                        [refs |-> <<>>, loops |-> <<2>>, pts |-> <<1, 3, 4>>]}, 2)}
 RecMembers(P) == Seqs({[ty |-> ty, role |-> SmallWord, tns |-> t, v |-> v] : ty \in {1, 2}, t \in {P, PRelation, POther}, v \in TwoWords}, 1)
 
-PLHShapes == {[tok |-> t, n |-> n, nss |-> l] : t \in 0..3, n \in {0, SmallWord, HiWord},
+\* token classes: 0 empty, 1 short, 2 multi-byte runes, 3 long (> 255 bytes), 4..7 lengths 127, 128, 255, 256 bytes (the
+\* uvarint length prefix changes width at 128; a one-byte raw length would end at 255)
+PLHShapes == {[tok |-> t, n |-> n, nss |-> l] : t \in 0..7, n \in {0, SmallWord, HiWord},
               l \in Seqs({[tns |-> 1, idx |-> 0], [tns |-> 2, idx |-> SmallWord], [tns |-> 4, idx |-> M - 3]}, 3)}
 
 ShapesOf(k) ==
